@@ -37,7 +37,7 @@ ANCHORS = [
 ]
 REQUIRED = ["q:aggregate_current", "q:aggregate_power", "q:constraint_currents", "q:constraint_currents_reordered",
             "q:constraint_currents_duplicates", "q:energy", "q:demands_met", "q:demands_met_threshold_below_full_cut_discriminating", "q:unbalance", "q:unbalance_nan_positions",
-            "q:datetimes", "runs_longer_than_8192_periods", "q:datetimes_partial_run", "analysis_called_mid_run_then_run_resumed", "stochastic_network_runs_judged", "stochastic_runs_with_never_served_sessions", "regime:hetero-voltage", "regime:mixed-sign", "regime:constraint-free"]
+            "q:datetimes", "runs_longer_than_8192_periods", "q:datetimes_partial_run", "analysis_called_mid_run_then_run_resumed", "q:cost_under_an_explicit_tariff_other_than_the_simulations_own", "stochastic_network_runs_judged", "stochastic_runs_with_never_served_sessions", "regime:hetero-voltage", "regime:mixed-sign", "regime:constraint-free"]
 BUDGET_S = {"quick": 240, "thorough": 3000}
 
 
@@ -365,6 +365,33 @@ def run_case(case, obs):
             if len(da2) != sim2.iteration or any(a != b for a, b in zip(da2, exp2)):
                 obs.violate("analysis:datetimes_partial", f"run stopped in period {k}: len {len(da2)} vs iteration {sim2.iteration}", **wit)
 
+    # ---- cost functions: the tariff passed explicitly is the one that prices the run, whatever tariff the simulation carries in
+    # its own signals (what-if costing)
+    if case["qseed"] % 6 == 0 and not case.get("long") and sim.iteration <= 400:
+        from props import c17 as _c17
+        names_ = list(_c17.FILES)
+        rng.shuffle(names_)
+        t_sig, _ = _c17._load(names_[0])
+        t_exp, o_exp = _c17._load(names_[1])
+        keep_sig = sim.signals
+        sim.signals = {"tariff": t_sig}
+        try:
+            pw_ = [math.fsum(V[i] * R[i][t] for i in range(n)) / 1000.0 for t in range(T)]
+            pr_ = [o_exp.lookup(start + timedelta(minutes=period) * k)[0] for k in range(T)]
+            exp_cost = math.fsum(p_ * w_ for p_, w_ in zip(pr_, pw_)) * (period / 60.0)
+            exp_dc = o_exp.lookup(start)[1] * max(pw_)
+            got_c, got_d = acnsim.energy_cost(sim, tariff=t_exp), acnsim.demand_charge(sim, tariff=t_exp)
+            obs.evals += 1
+            obs.ev("q:cost_under_an_explicit_tariff_other_than_the_simulations_own")
+            if not abs(got_c - exp_cost) <= 1e-9 * max(1.0, abs(exp_cost)):
+                obs.violate("analysis:energy_cost", f"energy_cost(sim, tariff={names_[1]}) = {got_c!r}, sum(price x power x dt) = {exp_cost!r} "
+                            f"(the simulation's own signals carry {names_[0]})", **wit)
+            if not abs(got_d - exp_dc) <= 1e-9 * max(1.0, abs(exp_dc)):
+                obs.violate("analysis:demand_charge", f"demand_charge(sim, tariff={names_[1]}) = {got_d!r}, expected {exp_dc!r}", **wit)
+        except LookupError:
+            pass
+        finally:
+            sim.signals = keep_sig
     if case.get("long"):
         obs.ev("runs_longer_than_8192_periods" if sim.iteration > 8192 else "long_runs")
     hetero = len(set(V)) > 1
